@@ -113,7 +113,7 @@ SPECS = {
     "C08": {
         "id": "C08", "runners": ["RunC08"], "translators": [translate.tracer_tables],
         "info_meaning": "[type x option-set cases; overwrite cases]",
-        "assumptions": ["the zoo samples serde_derive (which Deserialize / Serialize calls a derived impl makes); it does not verify it", "from_type itself (the multi-pass exploration with a budget) is not modelled: it is compared with the documented mapping and with from_samples on covering samples", "from_type cannot trace maps as structs (documented error); from_samples sorts such fields: the two are not compared for map types under map_as_struct"],
+        "assumptions": ["the zoo samples serde_derive (which Deserialize / Serialize calls a derived impl makes); it does not verify it", "the type description Ty states which serde requests a derived / std Deserialize impl makes (struct -> deserialize_struct with its field names, enum -> deserialize_enum and the variant accessor of the payload kind, Vec -> one element, map -> one entry): this is sampled on the zoo, not verified against serde_derive", "from_type cannot trace maps as structs (documented error); from_samples sorts such fields: the two are not compared for map types under map_as_struct"],
     },
     "C04": {
         "id": "C04", "runners": ["RunC01"],
